@@ -3,10 +3,10 @@
    length, every window (0 and > len included) and every second-series length.  Axiom-free.       *)
 From Tevec Require Import Base.Prelude Model.Driver Proofs.Driver Model.Kernels Proofs.Kernels.
 (* extension: the kernels themselves inside the trace model (parts 6-11 below) *)
-From Coq Require Import ZArith.
+From Coq Require Import ZArith Permutation.
 From Tevec Require Import Base.Num Base.XR Model.Features Model.Cmp Model.Norm Model.Binary Model.Reg Proofs.IdxRun Proofs.IdxPrefix
      Proofs.Kernels2 Proofs.Kernels3 Model.SortCmp Model.Rank Model.Partition Model.Quantile Model.KernelsMap
-     Proofs.TransQuantile Proofs.KernelsMap Proofs.OrderXR Proofs.KernelsXR.
+     Proofs.TransQuantile Proofs.KernelsMap Proofs.KernelsMap2 Proofs.OrderXR Proofs.KernelsXR.
 
 (* (1) unchecked element reads and output writes of the remove/add bodies are in bounds *)
 Theorem C10_apply_reads_in_bounds :
@@ -260,6 +260,22 @@ Theorem C10_vrank_checked :
     snd (vrank_tr pct rev xs) = Ok (vrank pct rev xs).
 Proof. intros. split; [apply vrank_tr_in_bounds|apply vrank_tr_value]. Qed.
 
+(* every output slot is written exactly once: on the uninitialised-buffer path (len >= 2, first sorted element
+   non-null) the slots written are a permutation of 0..len-1; the other paths return O::empty() / O::full(len, ..)
+   (an initialised allocation) and perform no `uset` *)
+Theorem C10_vrank_each_slot_once :
+  forall (A T : Type) (NA : Num A) (DT : IsNone T A) (DX : IsNoneX T A) (pct rev : bool) (xs : list T),
+    2 <= length xs ->
+    get_is_none xs (nth 0 (isort (cmp_idx (cmp_dir rev) xs) (seq 0 (length xs))) 0) = false ->
+    Permutation (writes_of (fst (vrank_tr pct rev xs))) (seq 0 (length xs)).
+Proof. intros. apply vrank_tr_writes_perm; assumption. Qed.
+Theorem C10_vrank_initialised_paths :
+  forall (A T : Type) (NA : Num A) (DT : IsNone T A) (DX : IsNoneX T A) (pct rev : bool) (xs : list T),
+    length xs <= 1 \/ get_is_none xs (nth 0 (isort (cmp_idx (cmp_dir rev) xs) (seq 0 (length xs))) 0) = true ->
+    writes_of (fst (vrank_tr pct rev xs)) = [] /\
+    (length xs <= 1 \/ vrank pct rev xs = repeat (Some nnan) (length xs)).
+Proof. intros. apply vrank_tr_writes_none; assumption. Qed.
+
 (* (11) vpartition / varg_partition / vquantile / vmedian *)
 Theorem C10_partition_select_in_range :
   forall (A T : Type) (NA : Num A) (DT : IsNone T A) (kth : nat) (xs : list T),
@@ -329,8 +345,10 @@ Proof. split; vm_compute; reflexivity. Qed.
 Example C10_vrank_trace_example :
   writes_of (fst (vrank_tr (A := Z) (T := Z) (DT := IsNone_never) (DX := IsNoneX_never) false false [30; 10; 20]%Z)) = [1; 2; 0]
   /\ snd (vrank_tr (A := Z) (T := Z) (DT := IsNone_never) (DX := IsNoneX_never) false false [30; 10; 20]%Z)
-     = Ok [Some 3; Some 1; Some 2]%Z.
-Proof. split; vm_compute; reflexivity. Qed.
+     = Ok [Some 3; Some 1; Some 2]%Z
+  /\ get_is_none (DT := IsNone_never) [30; 10; 20]%Z
+       (nth 0 (isort (cmp_idx (cmp_dir (DT := IsNone_never) false) [30; 10; 20]%Z) (seq 0 3)) 0) = false.
+Proof. repeat split; vm_compute; reflexivity. Qed.
 Example C10_partition_example :
   varg_partition (A := Z) (T := Z) (DT := IsNone_never) 1 true false [30; 10; 20]%Z = [1; 2]%Z
   /\ (count_valid (DT := IsNone_never) [30; 10; 20]%Z <=? 1 + 1) = false
@@ -379,6 +397,8 @@ Print Assumptions C10_ts_vminmaxnorm_safe.
 Print Assumptions C10_ts_vregx_resid_checked.
 Print Assumptions C10_ts_vregx_resid_safe.
 Print Assumptions C10_vrank_checked.
+Print Assumptions C10_vrank_each_slot_once.
+Print Assumptions C10_vrank_initialised_paths.
 Print Assumptions C10_partition_select_in_range.
 Print Assumptions C10_varg_partition_trusted_len.
 Print Assumptions C10_vpartition_trusted_len.
